@@ -255,6 +255,42 @@ Proof.
 Qed.
 Print Assumptions C14_mismatched_parts_rejected_mldsa.
 
+(* ... and the composite ML-DSA keys: both nested key data were accepted by the
+   parser of their own type (prefix RAW, no id requirement), the nested ML-DSA
+   key has the composite's instance, the (instance, classical algorithm) pair
+   is a supported one, and the classical key object has exactly the parameters
+   the algorithm prescribes - hence RSA 3072/4096 with e = 65537, ECDSA with a
+   hash as strong as the curve and DER signatures.  A nested key of any other
+   type ends in an error (the model refuses it without running its parser; in
+   the code the parser runs first, recursively for a composite nested in a
+   composite, each level on a strictly shorter value). *)
+Theorem C14_composite_key_parts :
+  forall (L : stdlib) private kd prefix idreq d,
+    parse_composite L private kd prefix idreq = Ok d ->
+    let fs := fields_or_nil (kd_value kd) in
+    let inst := get_u32 1 (get_sub 4 fs) in
+    let alg := get_u32 2 (get_sub 4 fs) in
+    let mkd := keydata_of (get_sub 2 fs) in
+    let ckd := keydata_of (get_sub 3 fs) in
+    kd_mat kd = (if private then km_private else km_public)
+    /\ composite_supported inst alg = true
+    /\ (if private then parse_mldsa_priv L mkd pt_raw 0 = Ok PMlDsaPriv /\ get_u32 1 (get_sub 3 (get_sub 3 (fields_or_nil (kd_value mkd)))) = inst
+        else parse_mldsa_pub mkd pt_raw 0 = Ok PMlDsaPub /\ get_u32 1 (get_sub 3 (fields_or_nil (kd_value mkd))) = inst)
+    /\ exists cd, parse_key_base L ckd pt_raw 0 = Ok cd /\ composite_of_classical private alg cd = Ok d.
+Proof. exact composite_parts. Qed.
+Print Assumptions C14_composite_key_parts.
+
+Theorem C14_composite_classical_strength :
+  forall private alg cd d,
+    composite_of_classical private alg cd = Ok d ->
+    match cd with
+    | PRsaPssPub bits e _ _ | PRsaPkcs1Pub bits e _ | PRsaPriv _ bits e _ _ => (bits = 3072 \/ bits = 4096) /\ e = 65537
+    | PEcdsaPub c h enc _ | PEcdsaPriv c h enc _ _ => curve_level c <= hash_level h /\ enc = enc_der
+    | _ => True
+    end.
+Proof. exact composite_classical_strength. Qed.
+Print Assumptions C14_composite_classical_strength.
+
 (* Regression for the defect fixed in /repo (commit 067e856): the RSA public
    key with exponent field 2^64 + 65537, which int(exponent.Int64()) used to
    read as 65537, is not strong and is now refused by the parser. *)
